@@ -413,6 +413,12 @@ class TDict(Shape):
     self.ksort = ksort
     self.vshape = vshape
 
+  def empty(self, ctx):
+    vs = value_sort(self.vshape)
+    return VDict(z3.EmptySet(self.ksort),
+                 z3.Const(ctx.sym('d0.val'), z3.ArraySort(self.ksort, vs)),
+                 self.ksort, self.vshape)
+
   def fresh(self, ctx, name):
     vs = value_sort(self.vshape)
     return VDict(z3.Const(ctx.sym(name + '.dom'), z3.SetSort(self.ksort)),
@@ -457,6 +463,10 @@ def decode(t, shape):
     return VSet(t, shape.esort)
   if isinstance(shape, TOpaque):
     return VOpaque(t, shape.okind)
+  if isinstance(shape, TObj):
+    # objects inside symbolic containers are only identities: the value can
+    # be dropped or stored again, not dereferenced
+    return VOpaque(t, 'ObjId')
   raise EngineError('cannot read a %r out of a symbolic container' % shape)
 
 
